@@ -222,7 +222,8 @@ pub fn canonical_violation(b: &[u8], allow_floats: bool) -> Option<&'static str>
                             return Some("nan-payload");
                         }
                     } else {
-                        if f.is_finite() && f.fract() == 0.0 {
+                        // integral floats that HAVE an integer encoding must use it
+                        if f.is_finite() && f.fract() == 0.0 && f >= -9_223_372_036_854_775_808.0 && f < 18_446_744_073_709_551_616.0 {
                             return Some("integral-float");
                         }
                         if it.info >= 26 && fits_f16(f) {
@@ -557,7 +558,6 @@ pub fn mutate(b: &[u8], kind: &str, rng: &mut Rng) -> Option<Vec<u8>> {
         "major-swap" => {
             let it = pick(rng, &|i| i.major == 2 || i.major == 3)?;
             let mut v = b.to_vec();
-            v[it.start] ^= 0x20 ^ 0x40 ^ 0x60; // 2<->3 differ in bit 5: 010 vs 011
             v[it.start] = (b[it.start] & 0x1f) | (if it.major == 2 { 3 } else { 2 } << 5);
             Some(v)
         }
@@ -641,6 +641,9 @@ fn tree_diff(ab: &[u8], a: &Item, bb: &[u8], b: &Item) -> String {
         if a.major == 5 && b.major == 3 {
             return "enum-map-form".to_owned();
         }
+        if a.major == 2 && b.major == 3 {
+            return "bytes-accepted-for-text".to_owned();
+        }
         return format!("major-{}-vs-{}", a.major, b.major);
     }
     match a.major {
@@ -650,8 +653,17 @@ fn tree_diff(ab: &[u8], a: &Item, bb: &[u8], b: &Item) -> String {
             };
             let ka = keys(ab, a);
             let kb = keys(bb, b);
-            if ka.iter().any(|k| !kb.contains(k)) {
-                return "unknown-field-ignored".to_owned();
+            for k in &ka {
+                if !kb.contains(k) {
+                    let mut swapped = k.clone();
+                    if !swapped.is_empty() && swapped[0] >> 5 == 2 {
+                        swapped[0] = (swapped[0] & 0x1f) | (3 << 5);
+                        if kb.contains(&swapped) {
+                            return "bytes-accepted-for-text".to_owned();
+                        }
+                    }
+                    return "unknown-field-ignored".to_owned();
+                }
             }
             if kb.iter().any(|k| !ka.contains(k)) {
                 return "absent-field-defaulted".to_owned();
